@@ -163,3 +163,70 @@ def check_queue_truth(run, model, rule, classes=None, floor=1):
                  node=uses[0] if uses else f.node, obligation=True)
     run.floor('functions that receive an event queue', n, floor)
     return n
+
+
+MUTABLE_CTORS = {'dict', 'list', 'set', 'deque', 'OrderedDict', 'defaultdict', 'Counter', 'bytearray'}
+MUTATORS = {'append', 'appendleft', 'extend', 'extendleft', 'insert', 'add', 'update', 'setdefault', 'pop', 'popleft', 'popitem', 'remove', 'discard', 'clear', 'rotate', 'sort', 'reverse'}
+
+
+def check_per_instance_state(run, model, rule, class_names, floor=1):
+    """a container that methods fill through `self.<name>[...] = ..` / `self.<name>.append(..)` must belong to the instance: bound on `self` (in a method) and not
+    declared as a mutable class attribute - a class-level dict/list is one object shared by every instance of the class (and of its subclasses), so what one chart
+    registers, every other chart sees"""
+    n = 0
+    for cn in class_names:
+        cls = model.classes.get(cn) if hasattr(model, 'classes') and isinstance(model.classes, dict) else model.cls(cn)
+        if cls is None:
+            continue
+        chain = [cls] + [k for k in model.mro(cls) if k is not cls]
+        # class-level mutable bindings along the MRO
+        shared = {}
+        for k in chain:
+            for st in k.node.body:
+                if isinstance(st, (ast.Assign, ast.AnnAssign)):
+                    v = st.value
+                    tg = st.targets if isinstance(st, ast.Assign) else [st.target]
+                    mut = isinstance(v, (ast.Dict, ast.List, ast.Set, ast.ListComp, ast.DictComp, ast.SetComp)) or \
+                        (isinstance(v, ast.Call) and norm(v.func).split('.')[-1] in MUTABLE_CTORS)
+                    if mut:
+                        for t in tg:
+                            if isinstance(t, ast.Name):
+                                shared.setdefault(t.id, (k, st))
+        # containers mutated through self
+        for k in chain:
+            for f in k.methods.values():
+                selfn = f.params[0] if f.params else None
+                if selfn is None:
+                    continue
+                mutated = set()
+                rebound = set()
+                for x in ast.walk(f.node):
+                    if isinstance(x, ast.Subscript) and isinstance(x.ctx, (ast.Store, ast.Del)):
+                        b = x.value
+                        while isinstance(b, ast.Subscript):
+                            b = b.value
+                        if isinstance(b, ast.Attribute) and isinstance(b.value, ast.Name) and b.value.id == selfn:
+                            mutated.add((b.attr, x))
+                    elif isinstance(x, ast.Call) and isinstance(x.func, ast.Attribute) and x.func.attr in MUTATORS:
+                        b = x.func.value
+                        while isinstance(b, ast.Subscript):
+                            b = b.value
+                        if isinstance(b, ast.Attribute) and isinstance(b.value, ast.Name) and b.value.id == selfn:
+                            mutated.add((b.attr, x))
+                    elif isinstance(x, ast.Attribute) and isinstance(x.ctx, ast.Store) and isinstance(x.value, ast.Name) and x.value.id == selfn:
+                        rebound.add(x.attr)
+                for attr, node in sorted(mutated, key=lambda t: (t[0], getattr(t[1], 'lineno', 0))):
+                    if attr not in shared:
+                        continue
+                    n += 1
+                    k0, st0 = shared[attr]
+                    # an instance binding made by some method of the class (lazily or in __init__) shadows the class attribute
+                    inst_bound = any(attr in {y.attr for y in ast.walk(m_.node) if isinstance(y, ast.Attribute) and isinstance(y.ctx, ast.Store) and isinstance(y.value, ast.Name)
+                                              and m_.params and y.value.id == m_.params[0]} for kk in chain for m_ in kk.methods.values())
+                    run.inst(rule, f, '%s.%s is filled through self but is a class-level %s' % (k0.name, attr, norm(st0.value)), inst_bound,
+                             '' if inst_bound else ('%s.%s is declared on the class (%s) and no method ever binds it on the instance, while %s fills it through `self.%s`: every instance of '
+                                                    'the class - every chart in the process - reads and writes the same table, so what one chart registers under a name silently '
+                                                    'replaces what another chart registered under that name' % (k0.name, attr, norm(st0), f.qualname, attr)), node=node, obligation=True)
+    if n == 0:
+        run.inst(rule, '+'.join(class_names), 'no container filled through self is a class-level mutable', True, nontrivial=False)
+    return n
